@@ -195,6 +195,8 @@ class CoreMixin:
         self.pc_has_quant = False
         self.wf_seen = set()
         self.wf_keep = []
+        from . import lists as L
+        L.reset_axioms()
         self.path_no = self.paths_run
         self.paths_run += 1
 
@@ -279,6 +281,7 @@ class CoreMixin:
         if z3.is_true(goal):
             rec.results.append(('unsat', 0.0, None, self.path_no, 'simplifier'))
             return
+        self.flush_axioms()
         if self.pc_has_quant or has_quantifier(goal):
             r, dt = z3.unknown, 0.0
         else:
@@ -349,10 +352,18 @@ class CoreMixin:
             self.notes.append('cvc5 second opinion unavailable: %r' % (err,))
             return 'unknown'
 
+    def flush_axioms(self):
+        '''Definitional axioms of the list-membership witness functions (lists.py).'''
+        from . import lists as L
+        for ax in L.pending_axioms():
+            self.solver.add(ax)
+            self.pc_has_quant = True
+
     def cover(self, label, extra=None):
         '''Vacuity guard: is this point reachable under the assumptions?'''
         if str(self.covers.get(label, '')).startswith('reachable'):
             return
+        self.flush_axioms()
         if self.pc_has_quant:
             s2 = z3.Solver()
             s2.set('timeout', self.branch_timeout_ms)
